@@ -474,6 +474,13 @@ type FuncContract struct {
 	File       string
 	Line       int
 	Props      []string
+	GhostSets  []GhostSet // ghost assignments performed when the function returns (ghost code: no obligation, no Go effect)
+}
+
+type GhostSet struct {
+	Name string
+	E    Expr
+	Text string
 }
 
 type SpecFunc struct {
@@ -549,7 +556,7 @@ var onlyforRe = regexp.MustCompile(`\s+onlyfor\s+([A-Z0-9, ]+)$`)
 
 var propsRe = regexp.MustCompile(`\s+props\s+([A-Z0-9, ]+)$`)
 
-var directiveKw = []string{"interface ", "trusted", "func ", "extern ", "requires ", "ensures ", "rely ", "guarantee ", "as-is ", "modifies ", "loop ", "pure-def ", "pure", "panics-never", "iterator-body", "inline", "opaque", "spec ", "axiom ", "lemma ", "refines ", "ghost ", "invariant ", "package ", "const ", "props "}
+var directiveKw = []string{"interface ", "trusted", "func ", "extern ", "requires ", "ensures ", "rely ", "guarantee ", "as-is ", "modifies ", "ghost-set ", "loop ", "pure-def ", "pure", "panics-never", "iterator-body", "inline", "opaque", "spec ", "axiom ", "lemma ", "refines ", "ghost ", "invariant ", "package ", "const ", "props "}
 
 func isDirective(l string) bool {
 	for _, k := range directiveKw {
@@ -742,6 +749,19 @@ func (sp *Spec) ParseContractFile(path, defaultPkg string) error {
 				n := map[string]int{"requires": len(cur.Requires), "ensures": len(cur.Ensures), "as-is": len(cur.AsIs), "rely": len(cur.Rely), "guarantee": len(cur.Guarantee), "pure-def": 1}[kw]
 				c.Label = fmt.Sprintf("%s_%d", kw[:3], n)
 			}
+		case strings.HasPrefix(l, "ghost-set "):
+			if cur == nil {
+				return fail("clause outside func")
+			}
+			gm := regexp.MustCompile(`^ghost-set\s+(\w+)\s*=\s*(.*)$`).FindStringSubmatch(l)
+			if gm == nil {
+				return fail("bad ghost-set clause %q", l)
+			}
+			ge, err := ParseExpr(gm[2])
+			if err != nil {
+				return fail("ghost-set %s: %v", gm[1], err)
+			}
+			cur.GhostSets = append(cur.GhostSets, GhostSet{Name: gm[1], E: ge, Text: gm[2]})
 		case strings.HasPrefix(l, "loop "):
 			if cur == nil {
 				return fail("clause outside func")
